@@ -470,6 +470,10 @@ def judge_state_diff(ref, obs, full_log, upto):
   t, c, r, va, vb = real[0]
   tcat = t if t.startswith('_grist_') else 'usertable'
   kind = col_kind(ref, t, c)
+  if all(col_kind(ref, x[0], x[1]) == 'formula' for x in real) and \
+     lookup_key_retyped_in_log(full_log, formulas_of_snapshot(ref), [(x[0], x[1]) for x in real]):
+    # listed under C13/C05: a lookup does not notice that its key column changed type (and back)
+    return ('cells:lookup-key-column-type-changed', [list(x) for x in real[:6]]), labels
   if all(is_keyerror(x[3]) != is_keyerror(x[4]) and col_kind(ref, x[0], x[1]) == 'formula' for x in real):
     # one side is a lookup KeyError ("table has no column"), the other a value: see known finding
     return ('cells:lookup-KeyError-stale', [list(x) for x in real[:6]]), labels
@@ -519,6 +523,32 @@ def made_formula_with_type_change(uas, cells, kind_of=None):
       return False
     if not ((before in (0, 0.0) and not isinstance(before, str) and after == '#false') or
             (before in (1, 1.0) and not isinstance(before, str) and after == '#true')):
+      return False
+  return True
+
+
+def lookup_key_retyped_in_log(full_log, formulas, cols):
+  """True if every column in `cols` has a formula doing a lookup keyed by a column whose type some successful bundle
+  of the history changed (ModifyColumn with 'type', also inside undo action lists)."""
+  retyped = set()
+
+  def scan(actions_):
+    for u in actions_:
+      if not isinstance(u, (list, tuple)) or not u:
+        continue
+      if u[0] == 'ModifyColumn' and len(u) > 3 and isinstance(u[3], dict) and 'type' in u[3]:
+        retyped.add((u[1], u[2]))
+      elif u[0] in ('ApplyUndoActions', 'ApplyDocActions') and len(u) > 1 and isinstance(u[1], list):
+        scan(u[1])
+  for ok, uas in full_log:
+    if ok:
+      scan(uas)
+  if not retyped or not cols:
+    return False
+  for k in cols:
+    f = formulas.get(k, '') or ''
+    ms = _re.findall(r'(\w+)\.lookup(?:Records|One)\(([^)]*)\)', f)
+    if not any((tname, key) in retyped for tname, args in ms for key in _re.findall(r'([A-Za-z_]\w*)\s*=', args)):
       return False
   return True
 
